@@ -96,6 +96,9 @@ class Saving(BaseSaving):
         self :
             Reference to self.
         """
+        # The copy made at construction is stale if the baseline cost has been
+        # re-configured since, e.g. by `set_params(baseline_cost__<name>=...)`.
+        self.optimised_cost = self.baseline_cost.clone().set_params(param=None)
         self.baseline_cost.fit(X)
         self.optimised_cost.fit(X)
         return self
@@ -233,6 +236,9 @@ class LocalAnomalyScore(BaseLocalAnomalyScore):
         self :
             Reference to self.
         """
+        # The copy made at construction is stale if the cost has been re-configured
+        # since, e.g. by `set_params(cost__<name>=...)`.
+        self._any_subset_cost = self.cost.clone()
         self._interval_cost.fit(X)
         return self
 
